@@ -141,7 +141,8 @@ func c08prop(r *simkit.Run) {
 	fmt.Fprintf(&resp, "Content-Length: %d\r\n\r\n%s", len(rbody), rbody)
 
 	res := runExchange(exchangeSpec{rawRequest: []byte(raw.String()), peerAddr: peer, tlsOn: tlsOn, passHost: passHost, backendURLExtras: rapid.IntRange(0, 2).Draw(rt, "backend-url-with-path-and-query") == 0,
-		plan: backendPlan{response: []byte(resp.String()), cutAt: -1}})
+		neighbour: rapid.SampledFrom([]int{0, 0, 1, 2}).Draw(rt, "neighbour-forwarder"),
+		plan:      backendPlan{response: []byte(resp.String()), cutAt: -1}})
 	ctxt := fmt.Sprintf("[request %q from %s tls=%v passHost=%v]", raw.String(), peer, tlsOn, passHost)
 	if res.hung != "" {
 		r.Fail("hang", "%s %s", res.hung, ctxt)
